@@ -348,24 +348,89 @@ def _eval(e, env, free, fv=None):
     return env.get(key)
 
 
+_OPT_PASS = re.compile(r".*Option::<T>::(map|as_ref|as_mut|as_deref|as_deref_mut|cloned|copied|take)$")
+
+
+def _opt_origin(fv, e, depth=6):
+    """If `e` is an Option derived from an Option<RibEntry> (the replaced entry) through map / as_ref / ..: return
+    (True, [closure keys mapped over it]); else (False, [])."""
+    clos = []
+    rend = Renderer(fv, depth=4)
+    while depth > 0 and isinstance(e, tuple) and e:
+        depth -= 1
+        if e[0] in ("ref", "deref"):
+            e = e[1]
+            continue
+        if e[0] == "call" and _OPT_PASS.match(e[1]) and e[2]:
+            for a in e[2][1:]:
+                for x in walk(a):
+                    if isinstance(x, tuple) and x and x[0] == "call" and x[1].startswith("closure::"):
+                        clos.append(x[1][len("closure::"):])
+                    if isinstance(x, tuple) and x and x[0] == "agg" and str(x[1]).startswith("closure"):
+                        clos.append(str(x[2]))
+            e = e[2][0]
+            continue
+        if e[0] == "var":
+            tys = _var_types(fv, e[1])
+            if any(re.search(r"Option<(&(mut )?)?(rustybgp_table::)?RibEntry>", t) for t in tys):
+                return True, clos
+            ls = [l for l, n in fv.local_name.items() if n == e[1]]
+            ds = [d for l in ls for d in fv.defs().get(l, []) if d[0] in fv.live]
+            if len(ds) != 1:
+                return False, []
+            bi, si, st = ds[0]
+            e = rend.call_expr(st, 4, bi) if si == "t" else rend.rvalue(st["rv"], 4)
+            continue
+        return False, []
+    return False, []
+
+
+def _closure_is_filtered(fv, clos):
+    """The mapped closures compute RibEntry::is_filtered() of the entry and nothing else."""
+    prog = fv.prog
+    ks = [k for k in prog.ix if any(k.endswith(c) or c.endswith(k) for c in clos)]
+    if not ks:
+        return False
+    for k in ks:
+        names = {prog.name(c) for c in prog.callees(k)}
+        if not any(n.endswith("RibEntry::is_filtered") for n in names) or len(names) != 1:
+            return False
+    return True
+
+
 def _atom(e, fv=None):
-    """Atoms are identified by what they are, not by how the locals are called: R = the discriminant of an Option<RibEntry>
-    (the entry taken out of the path list), O = RibEntry::is_filtered() of it, F = the `filtered` parameter of Table::insert."""
+    """Atoms are identified by what they are, not by how the locals are called: R = the discriminant of the Option<RibEntry>
+    taken out of the path list (or of an Option mapped from it), O = RibEntry::is_filtered() of that entry (directly, or as the
+    payload of such a mapped Option), F = the `filtered` parameter of Table::insert."""
     e0 = e
     while isinstance(e, tuple) and e and e[0] in ("ref", "deref"):
         e = e[1]
-    if isinstance(e, tuple) and e:
-        if e[0] in ("discr",) or (e[0] == "call" and re.search(r"Option::<T>::is_(some|none)$", e[1])):
+    if isinstance(e, tuple) and e and fv is not None:
+        if e[0] == "discr" or (e[0] == "call" and re.search(r"Option::<T>::is_(some|none)$", e[1])):
             inner = e[1] if e[0] == "discr" else (e[2][0] if e[2] else None)
-            while isinstance(inner, tuple) and inner and inner[0] in ("ref", "deref"):
-                inner = inner[1]
-            if isinstance(inner, tuple) and inner and inner[0] == "var" and fv is not None and \
-                    any(re.search(r"Option<(&)?(RibEntry|rustybgp_table::RibEntry)>", t) for t in _var_types(fv, inner[1])):
+            ok, clos = _opt_origin(fv, inner)
+            if ok:
                 return "R" if e[0] == "discr" else "R?" + e[1].split("::")[-1]
         if e[0] == "call" and e[1].endswith("RibEntry::is_filtered"):
             return "O"
-        if e[0] == "var" and fv is not None and e[1] == _first_bool_param(fv):
+        if e[0] == "field" and isinstance(e[1], tuple) and e[1] and e[1][0] == "downcast" and e[1][2] == "Some":
+            ok, clos = _opt_origin(fv, e[1][1])
+            if ok and clos and _closure_is_filtered(fv, clos):
+                return "O"
+        if e[0] == "var" and e[1] == _first_bool_param(fv):
             return "F"
+        if e[0] == "var":
+            # a named copy of one of the above (e.g. `let old_filtered = old.is_filtered()`, a pattern binding)
+            ls = [l for l, n in fv.local_name.items() if n == e[1]]
+            ds = [d for l in ls for d in fv.defs().get(l, []) if d[0] in fv.live]
+            if len(ds) == 1:
+                bi, si, st = ds[0]
+                rend = Renderer(fv, depth=4)
+                d = rend.call_expr(st, 4, bi) if si == "t" else rend.rvalue(st["rv"], 4)
+                if not (isinstance(d, tuple) and d and d[0] == "var" and d[1] == e[1]):
+                    a = _atom(d, fv)
+                    if a in ("R", "O", "F"):
+                        return a
     return "?" + show(e0, 120)
 
 
